@@ -26,7 +26,7 @@ from asyncfix.protocol.schema import FIXSchema
 
 from checks.dictmodel import Dict
 from vfx.env import PROTO, Conn, FakeDB, Writer, frame_fields, install_loop, run
-from vfx.run import Cell
+from vfx.run import Cell, REPO
 
 warnings.simplefilter("ignore")
 CS = ConnectionState
@@ -39,8 +39,8 @@ STATUSES = list(FOrdStatus)
 def schema(I=None):
     import copy
     if "s" not in _S:
-        _S["s"] = FIXSchema("/repo/tests/FIX44.xml")
-        _S["d"] = Dict("/repo/tests/FIX44.xml")
+        _S["s"] = FIXSchema(REPO + "/tests/FIX44.xml")
+        _S["d"] = Dict(REPO + "/tests/FIX44.xml")
     return _S["s"], _S["d"]
 
 
